@@ -155,6 +155,46 @@ def b(tok):
     return tok == "1"
 
 
+# ---------------------------------------------------------------- PV wire form (gen operations)
+def pv_enc(v):
+    """Python value -> wire token of lean/DswModel/Py/Wire.lean (NumPy scalars as plain ints)."""
+    if v is None:
+        return "n"
+    if v is True or isinstance(v, np.bool_) and bool(v):
+        return "bT"
+    if v is False or isinstance(v, np.bool_):
+        return "bF"
+    if isinstance(v, (int, np.integer)):
+        return "i" + big_str(v)
+    if isinstance(v, str):
+        return "s" + v
+    if isinstance(v, list):
+        return "L[" + ",".join(pv_enc(x) for x in v) + "]"
+    if isinstance(v, tuple):
+        return "T(" + ",".join(pv_enc(x) for x in v) + ")"
+    raise TypeError("no wire form for %r" % type(v))
+
+
+def pv_dec(tok):
+    if tok == "n":
+        return None
+    if tok == "bT":
+        return True
+    if tok == "bF":
+        return False
+    if tok.startswith("i"):
+        return big_int(tok[1:])
+    if tok.startswith("s"):
+        return tok[1:]
+    if tok.startswith("L[") and tok.endswith("]"):
+        body = tok[2:-1]
+        return [pv_dec(x) for x in body.split(",")] if body else []
+    if tok.startswith("T(") and tok.endswith(")"):
+        body = tok[2:-1]
+        return tuple(pv_dec(x) for x in body.split(",")) if body else ()
+    raise ValueError("bad wire token " + tok)
+
+
 # ---------------------------------------------------------------- shared argument objects
 # The real functions are handed the SAME Python object again whenever the same token recurs in a
 # process, and after every call each object is compared with the token it was built from: a call
@@ -297,6 +337,17 @@ def _run_impl(line, extra=None):
     def plain(fn):
         st, v = guarded(fn, 60)
         return v if st == "ok" else ("err TIMEOUT" if st == "timeout" else "err " + v)
+    if op == "gen":
+        # translated definitions (DswModel.Gen.*): the real function on the same wire values
+        fn = getattr(OP, t[1])
+        args = [pv_dec(x) for x in t[2:]]
+        import contextlib
+        import io
+        with contextlib.redirect_stdout(io.StringIO()):      # progress monitor output (verbose=True)
+            st, v = guarded(lambda: fn(*args), 120)
+        if st == "ok":
+            return "ok " + pv_enc(v)
+        return "err TIMEOUT" if st == "timeout" else "err " + v
     if op == "add":
         return plain(lambda: OP.calculus_addition(t[1], t[2]))
     if op == "sub":
